@@ -1142,7 +1142,65 @@ for pr in spec.get("cmp_probes", []):
         except BaseException as e:
             row[who] = "err " + exc_name(e)
     cmpres.append(row)
-print("RESULT " + json.dumps({"classes": out, "cmp": cmpres}))
+# cross-class comparisons inside one dataclass hierarchy
+hier = []
+if spec.get("hier"):
+    import itertools
+    def pool(ns):
+        g = lambda n: ns[n]
+        objs = [("HP(1)", g("HP")(1)), ("HP(2)", g("HP")(2)), ("HQ(1)", g("HQ")(1)), ("HQ(2)", g("HQ")(2)), ("HQ(1,0,5)", g("HQ")(1, 0, 5)),
+                ("HR(1)", g("HR")(1)), ("HR(2)", g("HR")(2)), ("HS(1)", g("HS")(1)), ("HS(2)", g("HS")(2)), ("HT(1)", g("HT")(1)),
+                ("HU(1)", g("HU")(1)), ("5", 5), ("(1,0)", (1, 0)),
+                ("EP(1)", g("EP")(1)), ("EP(2)", g("EP")(2)), ("EQ(1)", g("EQ")(1)), ("EQ(1,7)", g("EQ")(1, 7)), ("ES(1)", g("ES")(1)), ("ES(2)", g("ES")(2))]
+        return objs
+    pc, pp = pool(cymod.__dict__), pool(pyns)
+    OPS = [("eq", operator.eq), ("ne", operator.ne), ("lt", operator.lt), ("le", operator.le), ("gt", operator.gt), ("ge", operator.ge)]
+    def outcome(f):
+        try:
+            r = f()
+            if r is NotImplemented: return "ok NotImplemented"
+            return "ok " + repr(r)
+        except BaseException as e:
+            return "err " + exc_name(e)
+    def enc(v):
+        return "i%d" % v if isinstance(v, int) and not isinstance(v, bool) else None
+    for (na, ca), (nb, cb), (_, pa), (_, pb) in ((x[0], x[1], y[0], y[1]) for x, y in zip(itertools.product(pc, pc), itertools.product(pp, pp))):
+        if na[0] != nb[0] and na[0] in "HE" and nb[0] in "HE":
+            continue                      # the two hierarchies are not mixed
+        if na[0] not in "HE":
+            continue                      # self is always a dataclass instance
+        for opn, op in OPS:
+            row = {"a": na, "b": nb, "op": opn, "cy": outcome(lambda: op(ca, cb)), "py": outcome(lambda: op(pa, pb))}
+            if opn != "ne":
+                mname = "__%s__" % opn
+                row["cym"] = outcome(lambda: getattr(type(ca), mname)(ca, cb))
+                row["pym"] = outcome(lambda: getattr(type(pa), mname)(pa, pb))
+                D = next((k for k in type(pa).__mro__ if mname in k.__dict__), None)
+                if D is not None and dataclasses.is_dataclass(D) and D is not object:
+                    tb, ta = type(pb), type(pa)
+                    rel = "same" if tb is ta else ("sub" if issubclass(tb, ta) else ("super" if issubclass(ta, tb) else "unrelated"))
+                    ind = isinstance(pb, D)
+                    xs = ys = None
+                    if ind:
+                        names_ = [f.name for f in dataclasses.fields(D) if f.compare]
+                        xs = [enc(getattr(pa, n)) for n in names_]
+                        ys = [enc(getattr(pb, n)) for n in names_]
+                        if None in xs or None in ys:
+                            xs = ys = None
+                    row.update({"rel": rel, "inDef": ind, "xs": xs if xs is not None else ["i0"], "ys": ys if ys is not None else ["i0"],
+                                "model_ok": (xs is not None) or not ind})
+            if opn == "eq":
+                def hc(a, b):
+                    try:
+                        if (a == b) is True:
+                            return hash(a) == hash(b)
+                    except TypeError:
+                        return "unhashable"
+                    return None
+                row["cy_hash_consistent"] = repr(hc(ca, cb))
+                row["py_hash_consistent"] = repr(hc(pa, pb))
+            hier.append(row)
+print("RESULT " + json.dumps({"classes": out, "cmp": cmpres, "hier": hier}))
 '''
 
 
@@ -1257,6 +1315,9 @@ def decision_phase(ctx, named, var, tap):
             ctx.tie_break("front end crashed", cap(rec["crash"]), {"spec": s})
             continue
         impl = tap_to_out(rec, errs, s)
+        gl = tap_guards(rec)
+        if gl and any(g not in GUARD_LINES for g in gl):
+            ctx.tie_break("class guard of the synthesised comparison methods", "class %s: %s (modelled: other.__class__ is not self.__class__)" % (cn, cap(gl, 200)), {"spec": s, "variant": var})
         orc = py_oracle_out(s, cn)
         if orc.startswith("base-err"):
             ctx.count("decision/skipped-base-rejected-or-deviating")
@@ -1294,6 +1355,50 @@ def decision_phase(ctx, named, var, tap):
 
 
 # ------------------------------------------------------------------ D-c phase
+def _hier(deco, cdef):
+    c = "cdef class" if cdef else "class"
+    return ("%s(order=True)\n%s HP:\n    x: int\n    y: object = 0\n" % (deco, c)
+            + "%s(order=True)\n%s HQ(HP):\n    z: object = 0\n" % (deco, c)
+            + "%s(order=True)\n%s HR(HP):\n    w: object = 0\n" % (deco, c)
+            + "class HS(HP): pass\nclass HT(HP): pass\nclass HU(HQ): pass\n"
+            + "%s(unsafe_hash=True)\n%s EP:\n    x: int\n" % (deco, c)
+            + "%s(unsafe_hash=True)\n%s EQ(EP):\n    z: object = 0\n" % (deco, c)
+            + "class ES(EP): pass\n")
+
+
+HIER_CY = _hier("@cython.dataclasses.dataclass", True)
+HIER_PY = _hier("@dataclasses.dataclass", False)
+GUARD_LINES = {"if other.__class__ is not self.__class__: return NotImplemented": "exact"}
+
+
+def translate_guard(stage):
+    """the class guard in the code template of generate_cmp_code -> 'exact' | 'isinstance' (Untranslatable otherwise)"""
+    src = open(os.path.join(stage, "Cython", "Compiler", "Dataclass.py")).read()
+    fn = _find(ast.parse(src), ast.FunctionDef, "generate_cmp_code")
+    texts, parts = [], set()
+    for n in ast.walk(fn):
+        if isinstance(n, ast.JoinedStr):
+            texts.append("".join(v.value if isinstance(v, ast.Constant) else "{}" for v in n.values))
+            parts.update(id(v) for v in n.values)
+    for n in ast.walk(fn):
+        if isinstance(n, ast.Constant) and isinstance(n.value, str) and id(n) not in parts:
+            texts.append(n.value)
+    lines = sorted(set(l.strip() for t in texts for l in t.split("\n") if "NotImplemented" in l))
+    if len(lines) != 1:
+        raise Untranslatable("guard lines of generate_cmp_code: %r" % (lines,))
+    g = lines[0]
+    if g == "if other.__class__ is not self.__class__: return NotImplemented":
+        return "exact", g
+    if re.fullmatch(r"if not isinstance\(other, \{\}\): return NotImplemented", g):
+        return "isinstance", g
+    raise Untranslatable("unknown class guard %r" % g)
+
+
+def tap_guards(rec):
+    """guard lines (the ones answering NotImplemented) of the synthesised comparison methods of one class"""
+    return sorted(set(l.strip() for l in (rec.get("code") or "").split("\n") if "NotImplemented" in l))
+
+
 CMP_PROBE_CY = "".join("@cython.dataclasses.dataclass(order=True)\ncdef class CmpProbe%d:\n%s" % (k, "".join("    f%d: object\n" % i for i in range(k))) for k in (1, 2, 3))
 CMP_PROBE_PY = "".join("@dataclasses.dataclass(order=True)\nclass CmpProbe%d:\n%s" % (k, "".join("    f%d: object\n" % i for i in range(k))) for k in (1, 2, 3))
 
@@ -1335,7 +1440,7 @@ def gen_cmp_probes(rng, n):
 def dc_phase(ctx, chosen, var, per_module, cmp_n):
     """chosen: decision records accepted by both sides.  Compile, run next to CPython, compare observations."""
     mods = []
-    for i in range(0, len(chosen), per_module):
+    for i in range(0, max(len(chosen), 1), per_module):
         chunk = chosen[i:i + per_module]
         named = [(r["cname"], r["spec"]) for r in chunk]
         pyx, _ = build_pyx(named)
@@ -1346,8 +1451,8 @@ def dc_phase(ctx, chosen, var, per_module, cmp_n):
             py += render_class(s, cn, False, "B" + cn if s["base"] else None)
         first = (i == 0)
         if first:
-            pyx += CMP_PROBE_CY
-            py += CMP_PROBE_PY
+            pyx += CMP_PROBE_CY + HIER_CY
+            py += CMP_PROBE_PY + HIER_PY
         mods.append({"name": "dcm%d" % (i // per_module), "pyx": pyx, "py": py, "chunk": chunk,
                      "cmp": gen_cmp_probes(ctx.rng, cmp_n) if first else []})
     sos = cybuild.build_many(ctx, [{"name": m["name"], "source": m["pyx"]} for m in mods])
@@ -1359,7 +1464,7 @@ def dc_phase(ctx, chosen, var, per_module, cmp_n):
         sp = os.path.join(ctx.scratch, "obs_%s.json" % m["name"])
         with open(sp, "w") as f:
             json.dump({"so": so, "modname": m["name"], "py_source": m["py"], "values": {k: v[4] for k, v in TYPES.items()},
-                       "classes": [class_meta(r) for r in m["chunk"]], "cmp_probes": m["cmp"]}, f)
+                       "classes": [class_meta(r) for r in m["chunk"]], "cmp_probes": m["cmp"], "hier": bool(m["cmp"]) or m["name"] == "dcm0"}, f)
         script = os.path.join(ctx.scratch, "obschild.py")
         if not os.path.exists(script):
             with open(script, "w") as f:
@@ -1419,6 +1524,35 @@ def dc_phase(ctx, chosen, var, per_module, cmp_n):
                     if model_same:
                         ctx.tie_break("run-time behaviour vs model", "models agree on this class but %s differs at run time" % k, replay)
                     ctx.violation("rt-unexplained-" + k, cap(what, 390), replay)
+        # cross-class operand pairs inside one hierarchy (three-way with C30Cmp's guarded methods)
+        rows = res.get("hier") or []
+        if rows:
+            guard = getattr(ctx, "c30_guard", "exact")
+            lines = []
+            idx = []
+            for j, row in enumerate(rows):
+                if "rel" in row and row.get("model_ok"):
+                    idx.append(j)
+                    for who in ("cy", "py"):
+                        lines.append("C30Cmp %s %s %s %s %s %s %s" % (who, row["op"], ",".join(row["xs"]), ",".join(row["ys"]), row["rel"],
+                                                                 "1" if row["inDef"] else "0", guard))
+            mo = ctx.drv.batch(lines) if lines else []
+            pred = {j: (mo[2 * k], mo[2 * k + 1]) for k, j in enumerate(idx)}
+            for j, row in enumerate(rows):
+                ctx.count("runtime/hier-%s-%s" % (row["op"], row.get("rel", "foreign")))
+                ctx.seen(("hier", row["a"], row["b"], row["op"]))
+                rp = {"hier": {"a": row["a"], "b": row["b"], "op": row["op"]}}
+                if j in pred:
+                    if row["cym"] != pred[j][0]:
+                        ctx.tie_break("C30Cmp cyMethod vs compiled method", "type(%s).__%s__(%s, %s): model %s compiled %s" % (row["a"], row["op"], row["a"], row["b"], pred[j][0], row["cym"]), rp)
+                    if row["pym"] != pred[j][1]:
+                        ctx.tie_break("C30Cmp pyMethod vs CPython method", "type(%s).__%s__(%s, %s): model %s CPython %s" % (row["a"], row["op"], row["a"], row["b"], pred[j][1], row["pym"]), rp)
+                if row["cy"] != row["py"] or row.get("cym") != row.get("pym"):
+                    ctx.violation("rt-cross-class-comparison", "%s %s %s (classes: %s): Cython %s [method: %s] / CPython %s [method: %s]" % (
+                        row["a"], row["op"], row["b"], row.get("rel", "foreign operand"), row["cy"], row.get("cym"), row["py"], row.get("pym")), rp)
+                if row.get("cy_hash_consistent") != row.get("py_hash_consistent") or row.get("cy_hash_consistent") == "False":
+                    ctx.violation("rt-cross-class-hash-eq-inconsistent", "%s == %s and hashes: Cython consistent=%s / CPython consistent=%s" % (
+                        row["a"], row["b"], row.get("cy_hash_consistent"), row.get("py_hash_consistent")), rp)
         # comparison probes (three-way with C30Cmp)
         if m["cmp"]:
             lines = []
@@ -1478,6 +1612,15 @@ def run(ctx):
     except Untranslatable as e:
         ctx.obligation("translator: Dataclass.py -> Params", False, "cannot translate any more: %s" % e)
         ctx.budget_scale = 2.0
+    try:
+        ctx.c30_guard, gline = translate_guard(ctx.stage)
+        ctx.notes["cmp_guard"] = gline
+        ctx.lean_obligation("GuardWF(current generate_cmp_code)",
+                            "import CyVerif.Model.C30Cmp\nexample : CyVerif.C30Cmp.GuardWF .%s := by decide\n" % ctx.c30_guard,
+                            "the class guard of the synthesised comparison methods passes exactly same-class operands: " + gline)
+    except Untranslatable as e:
+        ctx.c30_guard = "exact"
+        ctx.obligation("translator: class guard of generate_cmp_code", False, "cannot translate any more: %s" % e)
     if any(not o["ok"] for o in ctx.obligations):
         ctx.budget_scale = 2.0
     # ---------------- specs
